@@ -51,8 +51,23 @@ class Acc(object):
 
 ZEROS = ["int", "float", "frac", "acc", "int5", "fracq"]   # "any zero value"
 DELTAS = [0, 1, 2, 3, 5, 0.125, 0.5, 0.875, 1.5, 2.25, 2.5, 0.1, 0.3, 1.7,
-          3.49, 7, 0.0, 4.625, -1, -0.5, -1e-9, -0.0]
-CONTAINERS = ["list", "tuple", "gen", "stream", "src"]
+          3.49, 7, 0.0, 4.625, -1, -0.5, -1e-9, -0.0,
+          # almost-integer / almost-half deltas: "nearest" is still decided
+          0.4999999, 1.0000005, 2.9999996, 0.5000004, 1.4999994]
+CONTAINERS = ["list", "tuple", "gen", "stream", "src", "seqproto"]
+
+
+class SeqProto(object):
+  """ Iterable only through the old sequence protocol (no __iter__). """
+
+  def __init__(self, values):
+    self._v = list(values)
+
+  def __getitem__(self, i):
+    return self._v[i]
+
+  def __len__(self):
+    return len(self._v)
 
 
 def make_zero(kind):
@@ -342,6 +357,8 @@ class C16(Property):
       return (v for v in list(values))
     if box == "stream":
       return self.ls.Stream(list(values))
+    if box == "seqproto":
+      return SeqProto(values)
     vals = list(values)
     return SimSource(sid, len(vals), lambda i, v=vals: v[i])
 
@@ -611,6 +628,24 @@ class C16(Property):
           raise _Mismatch("value", "%s stream gave %r, most recently "
                           "assigned value is %r (expected %r)"
                           % (mode, got, current, want))
+    if mode != "direct":
+      # the ControlStream object itself goes away; what was built from it
+      # keeps yielding the value most recently assigned
+      import gc
+      del cs
+      gc.collect()
+      try:
+        got = out.take(2)
+      except Exception as exc:
+        raise _Mismatch("value-after-release", "reading the derived stream "
+                        "after the ControlStream was released raised %r"
+                        % (exc,))
+      want = [f(n[0] + j + 1, current) for j in range(2)]
+      if got != want:
+        raise _Mismatch("value-after-release", "after the ControlStream was "
+                        "released the derived stream gave %r, expected %r"
+                        % (got, want))
+      res.counters["probe.controlstream-object-released"] += 1
     return {"late": late, "choices": choices}
 
 
